@@ -113,6 +113,13 @@ def run_case(seed):
     pf.fields = rng.sample(pool, min(n, len(pool)))
     if with_species and not any(re.search(r'^Y\(.+\)$', f) for f in pf.fields):
         pf.fields[0] = 'Y(H2)'
+    ry = random.Random(seed * 3907 + 31)
+    if with_species and ry.random() < 0.3:
+        # species whose own name begins like the wrapper: yttrium oxides, a bracketed group
+        for nm in ry.sample(['Y(YO)', 'Y(Y2O3)', 'Y((CH2)2O)', 'Y(Y)', 'Y(YY(2))'], ry.randint(1, 2)):
+            if nm not in pf.fields:
+                pf.fields[ry.randrange(len(pf.fields))] = nm
+        count("species names beginning with Y or a bracket")
     pf.time = rng.choice([0.0, 0.49947225144556617, -1.5, 12.0, float('inf'), 1.5e-300])
     for lev in pf.levels:
         lev.data = []
